@@ -503,8 +503,7 @@ class ValueMapping:
             if i == 0:
                 lo = cimtype.minvalue
             else:
-                _, previous_hi, _ = self._values_tuple(
-                    i - 1, valuemap_list, values_list, cimtype)
+                previous_hi = self._neighbor_bound(valuemap_list[i - 1], 2)
                 lo = previous_hi + 1
         else:
             lo = self._to_int(lo)
@@ -514,12 +513,33 @@ class ValueMapping:
             if i == len(valuemap_list) - 1:
                 hi = cimtype.maxvalue
             else:
-                next_lo, _, _ = self._values_tuple(
-                    i + 1, valuemap_list, values_list, cimtype)
+                next_lo = self._neighbor_bound(valuemap_list[i + 1], 1)
                 hi = next_lo - 1
         else:
             hi = self._to_int(hi)
         return (lo, hi, values_str)
+
+    def _neighbor_bound(self, valuemap_str, group):
+        """
+        Return the upper bound (group=2) or lower bound (group=1) of a ValueMap
+        entry that is the neighbor of an open range, or raise ModelError if
+        the neighbor does not specify that bound (an open range facing an open
+        range, or facing the unclaimed marker '..').
+
+        The bound is not determined by resolving the neighbor's open side,
+        because that depends on the entry being resolved.
+        """
+        m = re.match(r'^(.*)\.\.(.*)$', valuemap_str)
+        if m is None:
+            return self._to_int(valuemap_str)
+        bound = m.group(group)
+        if bound == '':
+            raise ModelError(
+                _format("The value-mapped {0} has an open range in its "
+                        "ValueMap qualifier next to the entry {1!A} that does "
+                        "not specify the adjacent bound",
+                        self._element_str(), valuemap_str))
+        return self._to_int(bound)
 
     def _to_int(self, val_str):
         """
